@@ -283,6 +283,51 @@ def h_recv_push_id():
     return h
 
 
+def h_recv_push_refused():
+    """a PUSH_PROMISE racing our reset of its parent is refused (RST_STREAM on the promised
+    id) -- and the promised id is USED by that: the high-water mark advances, so a later
+    promise may not reuse it or any lower id"""
+    def h():
+        with h2h.native():
+            c, s = _server_with_parent()
+            s.push_stream(1, 2, h2h.REQ)
+            wire = s.data_to_send()
+            c.reset_stream(1)
+            c.data_to_send()
+        Hin = _sym_parity('highest_in', 0, 4)
+        _set_marks(c, 1, Hin)
+        pid2 = sym_int('promised_half', 1, 2 ** 30 - 1, default=3)
+        pid = 2 * pid2
+        cb = _install_closed(c, pid, others=(Hin,))
+        symmap.linear_streams(c)
+        f = hf.PushPromiseFrame(1)
+        f.flags.add('END_HEADERS')
+        f.promised_stream_id = pid
+        with h2h.native():
+            f.data = models.parse_frames(wire)[0].data
+        out = models.Out(c)
+        try:
+            evs = h2h.deliver(c, [f])
+        except h2.exceptions.ProtocolError as e:
+            note('conn-error')
+            check(s_le(pid, Hin), 'racing-push-with-fresh-id-is-connection-error', (pid, Hin))
+            return
+        note('refused')
+        check(len(evs) == 0, 'refused-push-events', h2h.ev_names(evs))
+        fr = out.frames()
+        check(len(fr) == 1 and isinstance(fr[0], hf.RstStreamFrame) and
+              fr[0].stream_id == pid and fr[0].error_code == ErrorCodes.REFUSED_STREAM,
+              'refused-push-rst-frame', [h2h.frame_sig(x) for x in fr])
+        if s_lt(Hin, pid):
+            note('fresh')
+            check(c.highest_inbound_stream_id == pid, 'mark-not-advanced-by-refused-push',
+                  (c.highest_inbound_stream_id, pid))
+        else:
+            note('stale')
+            check(c.highest_inbound_stream_id == Hin, 'mark-moved-by-stale-refused-push', None)
+    return h
+
+
 def h_priority_any_id(client):
     """PRIORITY on any id neither opens nor implicitly closes streams: marks, streams and
     the closed-stream memory are untouched (symbolic marks + symbolic id)"""
@@ -326,6 +371,8 @@ def shards(tier, seed):
     out.append(Shard('push_stream_id/server', h_push_id(), expect=['pushed', 'refused']))
     out.append(Shard('recv_headers_id/server', h_recv_headers_id(), budget=90,
                      expect=['opened', 'stream-error', 'stream-closed', 'protocol-error']))
+    out.append(Shard('recv_push_promise_refused/client', h_recv_push_refused(), budget=90,
+                     expect=['refused', 'fresh']))
     out.append(Shard('recv_push_promise_id/client', h_recv_push_id(), budget=90,
                      expect=['promised', 'stream-error', 'stream-closed', 'protocol-error']))
     return out
